@@ -474,4 +474,105 @@ theorem wf_run {s : St} (h : WF s) (ops : List Op) : WF (run s ops) := by
   | nil => exact h
   | cons op ops ih => exact ih (wf_step h op)
 
+/-! ### instance labels -/
+
+/-- instance labels are never reused -/
+def IdsOk (s : St) : Prop := (s.insts.map Inst.id).Nodup ∧ ∀ i ∈ s.insts, i.id < s.nextInst
+
+theorem idsOk_register {s : St} (h : IdsOk s) (cls : Cls) (d : Nat) (name : Str) :
+    IdsOk (register s cls d name).1 := by
+  obtain ⟨h1, h2⟩ := h
+  constructor
+  · simp only [register, List.map_append, List.map_cons, List.map_nil]
+    rw [List.nodup_append]
+    refine ⟨h1, by simp, ?_⟩
+    intro a ha b hb
+    simp only [List.mem_singleton] at hb
+    subst hb
+    obtain ⟨i, hi, rfl⟩ := List.mem_map.mp ha
+    exact Nat.ne_of_lt (h2 i hi)
+  · intro i hi
+    simp only [register, List.mem_append, List.mem_singleton] at hi ⊢
+    rcases hi with hi | hi
+    · have := h2 i hi; omega
+    · subst hi; simp
+
+theorem idsOk_of_same {s s' : St} (h : IdsOk s) (e1 : s'.insts = s.insts) (e2 : s'.nextInst = s.nextInst) :
+    IdsOk s' := by
+  unfold IdsOk; rw [e1, e2]; exact h
+
+theorem idsOk_registrarInit {s : St} (h : IdsOk s) (cls : Cls) (name : Str) (letters : List Char) :
+    IdsOk (registrarInit s cls name letters).1 := by
+  have h1 : IdsOk (setCounter s (getCounter s cls + 1) cls) := idsOk_of_same h (by simp) (by simp)
+  unfold registrarInit
+  simp only
+  split
+  · split
+    · exact h1
+    · exact idsOk_register h1 _ _ _
+  · split
+    · exact h1
+    · exact idsOk_register h1 _ _ _
+
+theorem idsOk_step {s : St} (h : IdsOk s) (op : Op) : IdsOk (step s op).1 := by
+  cases op with
+  | new cls name letters =>
+    have h1 := idsOk_registrarInit h cls name letters
+    simp only [step]
+    cases hr : registrarInit s cls name letters with
+    | mk s1 r =>
+      rw [hr] at h1
+      cases r with
+      | error e => exact h1
+      | ok p =>
+        obtain ⟨nm, i⟩ := p
+        simp only at h1 ⊢
+        split
+        · exact idsOk_of_same h1 rfl rfl
+        · exact h1
+  | newHouse name letters =>
+    have h1 := idsOk_registrarInit h (.root .house) name letters
+    simp only [step]
+    cases hr : registrarInit s (.root .house) name letters with
+    | mk s1 r =>
+      rw [hr] at h1
+      cases r with
+      | error e => exact h1
+      | ok p =>
+        obtain ⟨nm, i⟩ := p
+        simp only at h1 ⊢
+        have h2 : IdsOk (allocHouse s1 i) := idsOk_of_same h1 rfl rfl
+        have h3 := idsOk_registrarInit h2 (.root .store) nm []
+        cases hr2 : registrarInit (allocHouse s1 i) (.root .store) nm [] with
+        | mk s3 r2 => rw [hr2] at h3; cases r2 <;> exact h3
+  | clear cls => exact idsOk_of_same h (by simp [step, clear]) (by simp [step, clear])
+  | clearRegistries => exact idsOk_of_same h (by simp [step, clear]) (by simp [step, clear])
+  | assignRegistries k =>
+    simp only [step]
+    split
+    · exact h
+    · exact idsOk_of_same h (by simp) (by simp)
+  | assignFrameRegistry k =>
+    simp only [step]
+    split
+    · exact h
+    · exact idsOk_of_same h (by simp) (by simp)
+
+theorem idsOk_run {s : St} (h : IdsOk s) (ops : List Op) : IdsOk (run s ops) := by
+  induction ops generalizing s with
+  | nil => exact h
+  | cons op ops ih => exact ih (idsOk_step h op)
+
+theorem eq_of_nodup_map_id {l : List Inst} (h : (l.map Inst.id).Nodup) {a b : Inst}
+    (ha : a ∈ l) (hb : b ∈ l) (e : a.id = b.id) : a = b := by
+  induction l with
+  | nil => simp at ha
+  | cons x xs ih =>
+    simp only [List.map_cons, List.nodup_cons, List.mem_map, not_exists, not_and] at h
+    rcases List.mem_cons.mp ha with ha1 | ha1 <;> rcases List.mem_cons.mp hb with hb1 | hb1
+    · rw [ha1, hb1]
+    · rw [ha1] at e; exact absurd e.symm (h.1 b hb1)
+    · rw [hb1] at e; exact absurd e (h.1 a ha1)
+    · exact ih h.2 ha1 hb1
+
 end Ioflo.Registry
